@@ -1,5 +1,179 @@
-(* Property C11 — theorems only (placeholder while the harness is brought up). *)
-From Coq Require Import List ZArith Bool.
-From DV Require Import Model.C11_GPTree.
+(* Property C11 — GP trees stay well-formed, well-typed and within limits under all operators.
+   Theorems only.  Model: Model/C11_GPTree.v (deap/gp.py);  lemmas: Proofs/C11_*.v.
+
+   Vocabulary
+     tree / flatten   inductive tree and its prefix list (the PrimitiveTree contents)
+     wft t            complete prefix expression: every node has exactly `arity` children
+     typed sub e t    wft, the root's return type is accepted at e (sub ret e), and every child is
+                      accepted at its parent's argument type; `sub` = issubclass on the types
+     plug c u         tree with subtree u in the one-hole context c; |cpre c| = prefix index of u's root
+     theight, node_depths, leaf_depths     recursive height / depths
+     pset_ok sub ps   what PrimitiveSetTyped._add establishes for pset.primitives / pset.terminals
+                      (theorem C11_add_establishes_pset_ok in Props/C11_pset.v)
+   Every operator result is quantified over ALL draw lists `ds`: the model rejects draws outside the
+   ranges `random` guarantees, so `... ds = Ok (out, ds')` ranges exactly over the possible runs. *)
+From Coq Require Import List ZArith NArith Bool.
+From DV Require Import Model.C11_GPTree Proofs.C11_Tree Proofs.C11_Gen Proofs.C11_Ops Proofs.C11_Cx Proofs.C11_Main.
 Import ListNotations.
-Example C11_placeholder : height [] = Ok 0%Z. Proof. reflexivity. Qed.
+Local Open Scope Z_scope.
+
+(* ---- subtree search: the slice returned for the index of u's root is exactly u's span ---- *)
+Theorem C11_search_subtree_span : forall c u, wft (plug c u) ->
+  let b := length (cpre c) in
+  search_subtree (flatten (plug c u)) b = Ok (b, (b + size u)%nat) /\
+  get_slice (flatten (plug c u)) b (b + size u) = flatten u /\
+  nth_error (flatten (plug c u)) b = Some (root u).
+Proof. exact search_subtree_span. Qed.
+Print Assumptions C11_search_subtree_span.
+
+(* ... and every index of the list is the root of such a subtree *)
+Theorem C11_every_index_roots_a_subtree : forall t i, (i < length (flatten t))%nat ->
+  exists c u, t = plug c u /\ length (cpre c) = i.
+Proof. exact every_index_roots_a_subtree. Qed.
+Print Assumptions C11_every_index_roots_a_subtree.
+
+(* ---- reported height = depth of the deepest node ---- *)
+Theorem C11_height_is_depth : forall t, wft t ->
+  height (flatten t) = Ok (theight t) /\
+  Forall (fun d => 0 <= d <= theight t) (node_depths 0 t) /\ In (theight t) (node_depths 0 t).
+Proof. exact height_is_depth. Qed.
+Print Assumptions C11_height_is_depth.
+
+(* ---- generators ---- *)
+(* gen_post mode min max t out :=
+     exists k, out = flatten k /\ wft k /\ typed sub t k /\ min <= theight k <= max /\
+       (full: every leaf depth = theight k | grow: every leaf depth >= min)                       *)
+Theorem C11_gen_wf_typed_height : forall sub ps, pset_ok sub ps ->
+  forall mode minh maxh t ds out ds', 0 <= minh ->
+  generate ps mode minh maxh t ds = Ok (out, ds') ->
+  exists k, out = flatten k /\ wft k /\ typed sub t k /\
+    minh <= theight k <= maxh /\
+    match mode with
+    | GFull => Forall (fun x => x = theight k) (leaf_depths 0 k)
+    | GGrow => Forall (fun x => minh <= x) (leaf_depths 0 k)
+    end.
+Proof. exact generate_spec. Qed.
+Print Assumptions C11_gen_wf_typed_height.
+
+(* genFull / genGrow / genHalfAndHalf with type_ = None (pset.ret) or given *)
+Theorem C11_gen_expr_spec : forall sub ps, pset_ok sub ps ->
+  forall g ot ds out ds', 0 <= g_min g ->
+  gen_expr ps g ot ds = Ok (out, ds') ->
+  gen_expr_post sub g (match ot with Some x => x | None => p_ret ps end) out.
+Proof. exact gen_expr_spec. Qed.
+Print Assumptions C11_gen_expr_spec.
+
+(* the generator loop always terminates within the recorded draws *)
+Theorem C11_generate_terminates : forall ps mode minh maxh t ds, 0 <= minh ->
+  generate ps mode minh maxh t ds <> Err EFuel.
+Proof. exact generate_no_fuel_error. Qed.
+Print Assumptions C11_generate_terminates.
+
+(* ---- closure of the variation operators ---- *)
+Theorem C11_cx_one_point_closed : forall sub, (forall a, sub a tobj = true) ->
+  forall top1 top2 t1 t2 ds o1 o2 ds',
+  typed sub top1 t1 -> typed sub top2 t2 ->
+  (nret (root t1) = tobj -> untyped_nodes (flatten t1) /\ untyped_nodes (flatten t2)) ->
+  cx_one_point (flatten t1) (flatten t2) ds = Ok ((o1, o2), ds') ->
+  exists t1' t2', o1 = flatten t1' /\ o2 = flatten t2' /\ typed sub top1 t1' /\ typed sub top2 t2' /\
+    (size t1' + size t2' = size t1 + size t2)%nat.                     (* cx_node_count *)
+Proof. exact cx_one_point_closed. Qed.
+Print Assumptions C11_cx_one_point_closed.
+
+Theorem C11_cx_leaf_biased_closed : forall sub pn pd top1 top2 t1 t2 ds o1 o2 ds',
+  typed sub top1 t1 -> typed sub top2 t2 ->
+  cx_leaf_biased pn pd (flatten t1) (flatten t2) ds = Ok ((o1, o2), ds') ->
+  exists t1' t2', o1 = flatten t1' /\ o2 = flatten t2' /\ typed sub top1 t1' /\ typed sub top2 t2' /\
+    (size t1' + size t2' = size t1 + size t2)%nat.
+Proof. exact cx_leaf_biased_closed. Qed.
+Print Assumptions C11_cx_leaf_biased_closed.
+
+Theorem C11_mut_uniform_closed : forall sub,
+  (forall a b c, sub a b = true -> sub b c = true -> sub a c = true) ->
+  forall ps, pset_ok sub ps ->
+  forall top t g ds out ds', 0 <= g_min g -> typed sub top t ->
+  mut_uniform ps g (flatten t) ds = Ok (out, ds') ->
+  exists t', out = flatten t' /\ typed sub top t'.
+Proof. exact mut_uniform_closed. Qed.
+Print Assumptions C11_mut_uniform_closed.
+
+Theorem C11_mut_node_replacement_closed : forall sub,
+  (forall a b c, sub a b = true -> sub b c = true -> sub a c = true) ->
+  forall ps, pset_ok sub ps ->
+  forall top t ds out ds', typed sub top t ->
+  mut_node_replacement ps (flatten t) ds = Ok (out, ds') ->
+  exists t', out = flatten t' /\ typed sub top t' /\ size t' = size t.
+Proof. exact mut_node_replacement_closed. Qed.
+Print Assumptions C11_mut_node_replacement_closed.
+
+Theorem C11_mut_ephemeral_closed : forall sub top t mode ds out ds', typed sub top t ->
+  mut_ephemeral mode (flatten t) ds = Ok (out, ds') ->
+  exists t', out = flatten t' /\ typed sub top t' /\ size t' = size t.
+Proof. exact mut_ephemeral_closed. Qed.
+Print Assumptions C11_mut_ephemeral_closed.
+
+(* insert never shrinks *)
+Theorem C11_mut_insert_closed : forall sub, (forall a, sub a a = true) ->
+  (forall a b c, sub a b = true -> sub b c = true -> sub a c = true) ->
+  forall ps, pset_ok sub ps ->
+  forall top t ds out ds', typed sub top t ->
+  mut_insert ps (flatten t) ds = Ok (out, ds') ->
+  exists t', out = flatten t' /\ typed sub top t' /\ (size t <= size t')%nat.
+Proof. exact mut_insert_closed. Qed.
+Print Assumptions C11_mut_insert_closed.
+
+(* shrink never grows *)
+Theorem C11_mut_shrink_closed : forall sub,
+  (forall a b c, sub a b = true -> sub b c = true -> sub a c = true) ->
+  forall top t ds out ds', typed sub top t ->
+  mut_shrink (flatten t) ds = Ok (out, ds') ->
+  exists t', out = flatten t' /\ typed sub top t' /\ (size t' <= size t)%nat.
+Proof. exact mut_shrink_closed. Qed.
+Print Assumptions C11_mut_shrink_closed.
+
+(* ---- staticLimit ---- *)
+(* within k maxv l := exists m, measure k l = Ok m /\ m <= maxv   (key = height | len) *)
+Theorem C11_static_limit_respected : forall k maxv op inputs ds res ds',
+  Forall (within k maxv) inputs ->
+  static_limit k maxv op inputs ds = Ok (res, ds') ->
+  Forall (within k maxv) res.
+Proof. exact static_limit_respected. Qed.
+Print Assumptions C11_static_limit_respected.
+
+(* a wrapped operator returns, position by position, the operator's own output or one of the inputs;
+   hence any closure property of the operator carries over *)
+Theorem C11_static_limit_closed : forall (P : list node -> Prop) k maxv op inputs ds res ds',
+  Forall P inputs ->
+  (forall outs ds1, op inputs ds = Ok (outs, ds1) -> Forall P outs) ->
+  static_limit k maxv op inputs ds = Ok (res, ds') -> Forall P res.
+Proof. exact static_limit_closed. Qed.
+Print Assumptions C11_static_limit_closed.
+
+(* ---- non-vacuity: a typed set with a subclass, a generated tree, an operator run ---- *)
+Definition ex_sub (a b : ty) : bool := (N.eqb a b || N.eqb b 0 || (N.eqb a 2 && N.eqb b 1))%N.   (* 2 <: 1 <: object *)
+Definition ex_f := mknode 10%N [1%N; 2%N] 1%N false 0.     (* f : (T1, T2) -> T1 *)
+Definition ex_g := mknode 11%N [1%N] 2%N false 0.          (* g : T1 -> T2 *)
+Definition ex_a := mknode 12%N [] 1%N false 0.             (* a : T1 *)
+Definition ex_b := mknode 13%N [] 2%N false 0.             (* b : T2 *)
+Definition ex_e := mknode 14%N [] 2%N true 0.              (* ephemeral : T2 *)
+Definition ex_ps := mkpset [(1%N, [ex_f; ex_g]); (2%N, [ex_g])] [(1%N, [ex_a; ex_b; ex_e]); (2%N, [ex_b; ex_e])] 1%N 1 2.
+Definition ex_tree := T ex_f [T ex_a []; T ex_g [T ex_b []]].
+
+Example C11_nonvacuous :
+  pset_ok ex_sub ex_ps /\
+  typed ex_sub 1%N ex_tree /\
+  generate ex_ps GFull 1 2 1%N [DRandint 1 2 1; DChoice 2 0; DChoice 3 1; DChoice 2 1; DEph 14%N 5] =
+    Ok ([ex_f; ex_b; set_val ex_e 5], []) /\
+  mut_shrink (flatten (T ex_f [T ex_f [T ex_a []; T ex_b []]; T ex_g [T ex_b []]])) [DChoice 1 0; DChoice 1 0] =
+    Ok (flatten ex_tree, []) /\
+  search_subtree (flatten ex_tree) 2 = Ok (2%nat, 4%nat) /\
+  height (flatten ex_tree) = Ok 2.
+Proof.
+  split; [|split; [|repeat split; vm_compute; reflexivity]].
+  - split; intros t p H; unfold prims, terms, ex_ps, p_prims, p_terms in H; cbn [lookup] in H;
+      (destruct (N.eqb 1 t) eqn:E1;
+       [apply N.eqb_eq in E1; subst t
+       |destruct (N.eqb 2 t) eqn:E2; [apply N.eqb_eq in E2; subst t|contradiction]]);
+      cbn [In] in H; repeat (destruct H as [<-|H]; [split; [reflexivity|cbn; congruence]|]); contradiction.
+  - cbn. repeat split.
+Qed.
